@@ -233,6 +233,55 @@ func checkFrag(c fcase) *mc.Failure {
 	})
 }
 
+// ---- Reset: a scanner reused on a new reader behaves like a fresh one ----
+
+type rcase struct {
+	Old     mc.BStr `json:"old_input"`
+	OldToks int     `json:"tokens_read_from_old"`
+	In      mc.BStr `json:"in"`
+	Mask    uint64  `json:"cut_mask"`
+	RestAt  int     `json:"rest_after"`
+	OldMask uint64  `json:"old_cut_mask"`
+}
+
+func checkReset(c rcase) *mc.Failure {
+	return mc.Guard(func() *mc.Failure {
+		old := fcase{In: c.Old, Mask: c.OldMask, FailAt: -1}
+		sc := shell.NewScanner(old.reader())
+		for i := 0; i < c.OldToks && sc.Next(); i++ {
+		}
+		nw := fcase{In: c.In, Mask: c.Mask, FailAt: -1}
+		sc.Reset(nw.reader())
+		in := string(c.In)
+		want, wok, _ := shellh.Split(in)
+		var got []string
+		for k := 0; ; k++ {
+			if k == c.RestAt {
+				b, err := io.ReadAll(sc.Rest())
+				consumed := 0
+				if k > 0 {
+					consumed = want[k-1].End
+				}
+				if err != nil || string(b) != in[consumed:] {
+					return mc.Failf(0, "after Reset (old input %q, %d tokens read), Rest after %d tokens of %q (cuts %b) = %q, %v; want %q", string(c.Old), c.OldToks, k, in, c.Mask, b, err, in[consumed:])
+				}
+				if sc.Next() {
+					return mc.Failf(0, "Next reports a token after Rest")
+				}
+				return nil
+			}
+			if !sc.Next() {
+				break
+			}
+			got = append(got, sc.Text())
+		}
+		if !eqs(got, texts(want)) || sc.Complete() != wok || sc.Err() != io.EOF {
+			return mc.Failf(0, "after Reset (old input %q, %d tokens read) the scanner yields %q complete=%v err=%v on %q; reference %q %v", string(c.Old), c.OldToks, got, sc.Complete(), sc.Err(), in, texts(want), wok)
+		}
+		return nil
+	})
+}
+
 // ---- pool reuse: a call must not be influenced by the previous one ----
 
 type pcase struct {
@@ -437,6 +486,47 @@ func main() {
 					return mc.Failf(-1, "bad trace: %v", err)
 				}
 				return checkFrag(f)
+			},
+		},
+		mc.Harness{
+			Name: "reset",
+			Explore: func(r *mc.Run) {
+				olds := []struct {
+					s string
+					n int
+				}{{"", 0}, {"old1 old2 old3", 1}, {"'open quote", 1}, {"x\\", 1}, {"a b", 5}}
+				strs := allStrings(alphabet[:7], mc.Pick(r, 4, 5))
+				var evals int64
+				mc.ParallelFor(len(strs), r.Workers, func(i int) {
+					s := strs[i]
+					toks, _, _ := shellh.Split(s)
+					masks := uint64(1) << uint(max(len(s)-1, 0))
+					var n int64
+					for _, o := range olds {
+						for m := uint64(0); m < masks; m++ {
+							for k := -1; k <= len(toks); k++ {
+								for _, om := range []uint64{0, ^uint64(0)} {
+									c := rcase{Old: mc.BStr(o.s), OldToks: o.n, In: mc.BStr(s), Mask: m, RestAt: k, OldMask: om}
+									if f := checkReset(c); f != nil {
+										r.Violation(mc.Case{Harness: "reset", Trace: mc.J(c), Msg: f.Msg})
+									}
+									n++
+								}
+							}
+						}
+					}
+					atomic.AddInt64(&evals, n)
+				})
+				r.AddEval(int64(len(strs)), evals, evals, evals)
+				r.Rule("a scanner that has read part of an old input (left in every kind of state, old reader delivering at once or byte by byte) is Reset onto every short string under every fragmentation; tokens, Complete, Err and Rest after every token count must be those of a fresh scanner")
+				r.Sample(rcase{Old: "old1 old2 old3", OldToks: 1, In: "a 'b c' d", Mask: 0b10101, RestAt: 1})
+			},
+			Replay: func(c mc.Case) *mc.Failure {
+				var rc rcase
+				if err := mc.Unmarshal(c.Trace, &rc); err != nil {
+					return mc.Failf(-1, "bad trace: %v", err)
+				}
+				return checkReset(rc)
 			},
 		},
 		mc.Harness{
